@@ -492,10 +492,19 @@ class Blockwise(Expr):
         # We either have to create a new Align layer (ok) or combine divisions
         # and graph into a single operation.
         dependencies = self.dependencies()
-        for arg in dependencies:
-            if not self._broadcast_dep(arg):
-                assert arg.divisions == dependencies[0].divisions
-        return dependencies[0].divisions
+        # A broadcasted dependency has no say in the partitioning of the result, and
+        # neither has an index that is used as values of a series or frame: its
+        # divisions describe those values, not the index of the result
+        frames = [
+            dep
+            for dep in dependencies
+            if not self._broadcast_dep(dep)
+            and not (is_index_like(dep._meta) and not is_index_like(self._meta))
+        ]
+        frames = frames or dependencies
+        for arg in frames:
+            assert arg.divisions == frames[0].divisions
+        return frames[0].divisions
 
     @functools.cached_property
     def _name(self):
